@@ -38,6 +38,7 @@ PURE = ["loads", "dumps", "validate", "find", "findall", "findunique", "findkey"
 CORE = ["loads", "dumps", "validate", "findall"]
 ALLDOCS = [1, 2, 3, 4, 5, 6, 7, 8]
 BUILD = os.path.join(common.VERIF, "build")
+RUN = "%d" % os.getpid()        # run directories and scratch files are private to this run (two C12 runs may overlap)
 
 
 def calls_cfg(threads, policy, kinds, docs, maxcalls, maxper, clears=True, keyv=True, lower=True, finds=False,
@@ -50,12 +51,12 @@ def calls_cfg(threads, policy, kinds, docs, maxcalls, maxper, clears=True, keyv=
 
 
 def run_calls(name, cfg, script=None, workers=1, timeout=300, **kw):
-    path = script or os.path.join(BUILD, "c12_empty_script.json")
+    path = script or os.path.join(BUILD, "c12_%s_empty_script.json" % RUN)
     if script is None and not os.path.exists(path):
         os.makedirs(BUILD, exist_ok=True)
         with open(path, "w") as f:
             f.write("[]")
-    r = tlc.run("Calls", cfg, tag="c12_" + name, workers=workers, env={"C12_SCRIPT": path}, timeout=timeout, **kw)
+    r = tlc.run("Calls", cfg, tag="c12_%s_%s" % (RUN, name), workers=workers, env={"C12_SCRIPT": path}, timeout=timeout, **kw)
     if "is specified as UNCHANGED" in r.out:
         raise common.MachineryFailure("spec/Calls.tla: TLC warns about a variable changed although UNCHANGED (%s)" % name)
     return r
@@ -149,7 +150,7 @@ def make_scripts(doctable, rng, quick):
 
 def purity_texts(ck, n, seed):
     """documents from spec/Reader.tla walks, comments inserted"""
-    hs = docsmod.walks(n, max_steps=25, step_posts=False, seed=seed + 12, tag="c12_walks", ck=ck)
+    hs = docsmod.walks(n, max_steps=25, step_posts=False, seed=seed + 12, tag="c12_%s_walks" % RUN, ck=ck)
     rng = random.Random(seed)
     out = []
     for j, h in enumerate(hs):
@@ -199,6 +200,20 @@ def run(tier):
         return _run(ck, seed, quick, pool, nproc, t0)
     finally:
         pool.terminate()
+        cleanup()
+
+
+def cleanup():
+    """scratch files and TLC run directories of this run"""
+    import shutil
+    for p in glob.glob(os.path.join(BUILD, "c12_%s_*" % RUN)) + glob.glob(os.path.join(BUILD, "tlc", "c12_%s_*" % RUN)):
+        if os.path.isdir(p):
+            shutil.rmtree(p, ignore_errors=True)
+        else:
+            try:
+                os.remove(p)
+            except OSError:
+                pass
 
 
 def _run(ck, seed, quick, pool, nproc, t0):
@@ -217,7 +232,7 @@ def _run(ck, seed, quick, pool, nproc, t0):
     for i, ch in enumerate(chunks(files, nproc if quick else nproc * 3)):
         pur_jobs.append(pool.apply_async(L.task_purity, ({"base": (i + 1) * 100000, "seed": seed * 100 + i, "files": ch,
                                                           "light": quick},)))
-    slots_f = ex.submit(docsmod.slots, "c12_slots", ck)
+    slots_f = ex.submit(docsmod.slots, "c12_%s_slots" % RUN, ck)
     walks_f = ex.submit(purity_texts, ck, 90 if quick else 800, seed)
 
     # ---- (M) a first tiny run (one of the negative configurations) also delivers the document table
@@ -228,7 +243,7 @@ def _run(ck, seed, quick, pool, nproc, t0):
     if not doctable:
         raise common.MachineryFailure("spec/Calls.tla did not print its document table")
 
-    root = os.path.join(BUILD, "c12_files_%d" % seed)
+    root = os.path.join(BUILD, "c12_%s_files" % RUN)
     L.write_files(L.build_docs(doctable, seed, 2, root), root)
     env_job = {"seed": seed, "doctable": doctable, "root": root}
 
@@ -254,7 +269,7 @@ def _run(ck, seed, quick, pool, nproc, t0):
                        calls_cfg([1], "shared_all", PURE, ALLDOCS, 8, 8, record=True, invs=("SeqEquivalent", "Emit"), props=()),
                        None, 1, tmo, mode="simulate", simulate="num=%d" % nh, depth=120, seed=seed + 7)
     scripts = make_scripts(doctable, rng, quick)
-    spath = os.path.join(BUILD, "c12_script_%d.json" % seed)
+    spath = os.path.join(BUILD, "c12_%s_script.json" % RUN)
     with open(spath, "w") as f:
         json.dump([s for s, _ in scripts], f)
     sched_f = ex.submit(run_calls, "schedules",
@@ -353,13 +368,13 @@ def _run(ck, seed, quick, pool, nproc, t0):
     rt_fs = []
     for pi in range(0, max(1, len(records)), part_size):
         part = records[pi:pi + part_size]
-        trace = os.path.join(BUILD, "c12_purity_%d_%d.ndjson" % (seed, pi // part_size))
+        trace = os.path.join(BUILD, "c12_%s_purity_%d.ndjson" % (RUN, pi // part_size))
         with open(trace, "w") as f:
             for r in part:
                 f.write(json.dumps({k: r[k] for k in ("tid", "call", "fn", "pre", "post", "diff")}) + "\n")
         rt_fs.append((len(part), ex.submit(
             tlc.run, "TraceCalls", tlc.cfg_text(init="TInit", next_="TNext", invariants=["Report", "Counted"]),
-            tag="c12_tracecalls_%d" % (pi // part_size), workers=1, env={"TRACE_FILE": trace}, timeout=tmo)))
+            tag="c12_%s_tracecalls_%d" % (RUN, pi // part_size), workers=1, env={"TRACE_FILE": trace}, timeout=tmo)))
     # (meanwhile the worker processes drain the re-use, schedule and stress jobs)
     rep = {"judged": 0, "bad": [], "mutobs": set()}
     for npart, f in rt_fs:
@@ -468,9 +483,18 @@ def _run(ck, seed, quick, pool, nproc, t0):
 # ==================================================================================== replay
 
 def replay(path):
+    try:
+        return _replay(path)
+    finally:
+        cleanup()
+
+
+def _replay(path):
     with open(path) as f:
         rep = json.load(f)
     case = rep["case"]
+    if case.get("root"):
+        case["root"] = os.path.join(BUILD, "c12_%s_files" % RUN)
     part = case.get("part")
     print("replaying %s (%s)" % (rep["signature"], part))
     if part == "purity":
